@@ -360,9 +360,197 @@ func (e *emitter) c05ForHeader(s *source, rel, goName, leanName string) {
 	e.stringList(leanName, "init / cond / post of the for loop of `"+goName+"` in "+rel, out)
 }
 
+// ---- round 5: the ORDER OF EFFECTS of a site function as a typed list ----
+
+// c05EffCfg says which expressions of one Go function are the limiting object: channels used as semaphores,
+// receivers whose Borrow/TryBorrow/Return are permit operations, lockers, wait groups, and which calls are
+// the guarded user function. skipWait: the dispatcher's own `wg.Wait()` (mr/fx) is not part of the per-item
+// life-cycle the site program describes.
+type c05EffCfg struct {
+	chans, limits, locks, wgs, user []string
+	skipWait                        bool
+}
+
+func c05In(xs []string, x string) bool {
+	for _, y := range xs {
+		if y == x {
+			return true
+		}
+	}
+	return false
+}
+
+// c05Effects walks the function in syntactic order (nested function literals included) and emits, as a Lean
+// `List Eff`, the property-relevant effects: `ch <- x` = acquire (tryAcquire inside a select with a default
+// clause), `<-ch` = release (tryRelease inside a select with default), Borrow/TryBorrow/Return and
+// Lock/Unlock likewise, Add/Done/Wait of the wait group, the call of the guarded user function.
+func (e *emitter) c05Effects(s *source, rel, goName, leanName string, cfg c05EffCfg) {
+	fd := s.findFunc(rel, goName)
+	if fd == nil {
+		e.errors = append(e.errors, "function "+goName+" not found in "+rel)
+		e.printf("/-- MISSING: %s in %s -/\ndef %s : List Eff := []\n\n", goName, rel, leanName)
+		return
+	}
+	nonBlocking := map[ast.Node]bool{} // comm statements of a select that has a default clause
+	var out []string
+	ast.Inspect(fd.Body, func(n ast.Node) bool {
+		switch x := n.(type) {
+		case *ast.SelectStmt:
+			hasDefault := false
+			for _, c := range x.Body.List {
+				if cc, ok := c.(*ast.CommClause); ok && cc.Comm == nil {
+					hasDefault = true
+				}
+			}
+			if hasDefault {
+				for _, c := range x.Body.List {
+					if cc, ok := c.(*ast.CommClause); ok && cc.Comm != nil {
+						nonBlocking[cc.Comm] = true
+						if es, ok := cc.Comm.(*ast.ExprStmt); ok {
+							nonBlocking[es.X] = true
+						}
+						if as, ok := cc.Comm.(*ast.AssignStmt); ok && len(as.Rhs) == 1 {
+							nonBlocking[as.Rhs[0]] = true
+						}
+					}
+				}
+			}
+		case *ast.SendStmt:
+			if c05In(cfg.chans, s.src(x.Chan)) {
+				if nonBlocking[x] {
+					out = append(out, "tryAcquire")
+				} else {
+					out = append(out, "acquire")
+				}
+			}
+		case *ast.UnaryExpr:
+			if x.Op == token.ARROW && c05In(cfg.chans, s.src(x.X)) {
+				if nonBlocking[x] {
+					out = append(out, "tryRelease")
+				} else {
+					out = append(out, "release")
+				}
+			}
+		case *ast.CallExpr:
+			fn := s.src(x.Fun)
+			if c05In(cfg.user, fn) {
+				out = append(out, "user")
+				break
+			}
+			sel, ok := x.Fun.(*ast.SelectorExpr)
+			if !ok {
+				break
+			}
+			recv, m := s.src(sel.X), sel.Sel.Name
+			switch {
+			case c05In(cfg.limits, recv) && m == "Borrow":
+				out = append(out, "acquire")
+			case c05In(cfg.limits, recv) && m == "TryBorrow":
+				out = append(out, "tryAcquire")
+			case c05In(cfg.limits, recv) && m == "Return":
+				out = append(out, "tryRelease")
+			case c05In(cfg.locks, recv) && m == "Lock":
+				out = append(out, "acquire")
+			case c05In(cfg.locks, recv) && m == "Unlock":
+				out = append(out, "release")
+			case c05In(cfg.wgs, recv) && m == "Add":
+				out = append(out, "wgAdd")
+			case c05In(cfg.wgs, recv) && m == "Done":
+				out = append(out, "wgDone")
+			case c05In(cfg.wgs, recv) && m == "Wait" && !cfg.skipWait:
+				out = append(out, "wgWait")
+			}
+		}
+		return true
+	})
+	for i := range out {
+		out[i] = "." + out[i]
+	}
+	e.printf("/-- order of the permit / wait-group / user-call effects of `%s` in %s -/\ndef %s : List Eff := [%s]\n\n",
+		goName, rel, leanName, strings.Join(out, ", "))
+}
+
+// c05Forward lists the arguments of the first call of `callee` inside goName (function literals abbreviated to
+// `func`, a spread argument keeps its `...`): what a delegating entry point hands on.
+func (e *emitter) c05Forward(s *source, rel, goName, callee, leanName string) {
+	fd := s.findFunc(rel, goName)
+	var out []string
+	found := false
+	if fd != nil {
+		ast.Inspect(fd.Body, func(n ast.Node) bool {
+			x, ok := n.(*ast.CallExpr)
+			if !ok || found || s.src(x.Fun) != callee {
+				return true
+			}
+			found = true
+			for i, a := range x.Args {
+				tok := s.src(a)
+				if _, isLit := a.(*ast.FuncLit); isLit {
+					tok = "func"
+				}
+				if i == len(x.Args)-1 && x.Ellipsis.IsValid() {
+					tok += "..."
+				}
+				out = append(out, tok)
+			}
+			return false
+		})
+	}
+	if !found {
+		e.errors = append(e.errors, "no call of "+callee+" in "+goName+" ("+rel+")")
+		out = []string{"MISSING"}
+	}
+	e.stringList(leanName, "arguments `"+goName+"` in "+rel+" hands to `"+callee+"`", out)
+}
+
+func c05Round5(s *source, e *emitter) {
+	const mrf = "core/mr/mapreduce.go"
+	e.c05Forward(s, mrf, "MapReduce", "mapReduceWithPanicChan", "mrMapReduceFwd")
+	e.c05Forward(s, mrf, "MapReduceChan", "mapReduceWithPanicChan", "mrMapReduceChanFwd")
+	e.c05Forward(s, mrf, "MapReduceVoid", "MapReduce", "mrMapReduceVoidFwd")
+	e.c05Forward(s, mrf, "Finish", "MapReduceVoid", "mrFinishFwd")
+	e.c05Forward(s, mrf, "FinishVoid", "ForEach", "mrFinishVoidFwd")
+	e.c05Forward(s, mrf, "ForEach", "buildOptions", "mrForEachFwd")
+	e.c05Forward(s, mrf, "mapReduceWithPanicChan", "buildOptions", "mrCoreFwd")
+	e.c05Forward(s, "core/syncx/timeoutlimit.go", "TimeoutLimit.TryBorrow", "l.limit.TryBorrow", "tlTryBorrowFwd")
+	e.c05Forward(s, "core/syncx/timeoutlimit.go", "TimeoutLimit.Return", "l.limit.Return", "tlReturnFwd")
+	e.c05Forward(s, "core/syncx/barrier.go", "Barrier.Guard", "Guard", "barrierGuardFwd")
+	e.c05Forward(s, "core/threading/workergroup.go", "WorkerGroup.Start", "group.RunSafe", "workerGroupFwd")
+	e.c05Forward(s, "rest/handler/maxconnshandler.go", "MaxConnsHandler", "syncx.NewLimit", "maxConnsNewLimitFwd")
+	e.c05Forward(s, "core/fx/stream.go", "Stream.Walk", "s.walkLimited", "fxWalkLimitedFwd")
+	e.printf("/-- the property-relevant effect kinds (extracted order-of-effects lists are lists of these) -/\n" +
+		"inductive Eff where\n  | acquire | tryAcquire | release | tryRelease | wgAdd | wgDone | wgWait | user\n  deriving Repr, DecidableEq\n\n")
+	lim := c05EffCfg{chans: []string{"l.pool"}}
+	e.c05Effects(s, "core/syncx/limit.go", "Limit.Borrow", "borrowEff", lim)
+	e.c05Effects(s, "core/syncx/limit.go", "Limit.TryBorrow", "tryBorrowEff", lim)
+	e.c05Effects(s, "core/syncx/limit.go", "Limit.Return", "returnEff", lim)
+	tl := c05EffCfg{limits: []string{"l", "l.limit"}}
+	e.c05Effects(s, "core/syncx/timeoutlimit.go", "TimeoutLimit.Borrow", "tlBorrowEff", tl)
+	e.c05Effects(s, "core/syncx/timeoutlimit.go", "TimeoutLimit.TryBorrow", "tlTryBorrowEff", tl)
+	e.c05Effects(s, "core/syncx/timeoutlimit.go", "TimeoutLimit.Return", "tlReturnEff", tl)
+	tr := c05EffCfg{chans: []string{"rp.limitChan"}, wgs: []string{"rp.waitGroup"}, user: []string{"task"}}
+	e.c05Effects(s, "core/threading/taskrunner.go", "TaskRunner.Wait", "trWaitEff", tr)
+	e.c05Effects(s, "core/threading/taskrunner.go", "TaskRunner.Schedule", "scheduleEff", tr)
+	e.c05Effects(s, "core/threading/taskrunner.go", "TaskRunner.ScheduleImmediately", "scheduleImmEff", tr)
+	e.c05Effects(s, "rest/handler/maxconnshandler.go", "MaxConnsHandler", "maxConnsEff",
+		c05EffCfg{limits: []string{"latch"}, user: []string{"next.ServeHTTP"}})
+	e.c05Effects(s, "core/mr/mapreduce.go", "executeMappers", "executeMappersEff",
+		c05EffCfg{chans: []string{"pool"}, wgs: []string{"wg"}, user: []string{"mCtx.mapper"}, skipWait: true})
+	e.c05Effects(s, "core/fx/stream.go", "Stream.walkLimited", "walkLimitedEff",
+		c05EffCfg{chans: []string{"pool"}, wgs: []string{"wg"}, user: []string{"fn"}, skipWait: true})
+	rg := c05EffCfg{wgs: []string{"g.waitGroup"}, user: []string{"fn"}}
+	e.c05Effects(s, "core/threading/routinegroup.go", "RoutineGroup.Wait", "rgWaitEff", rg)
+	e.c05Effects(s, "core/threading/routinegroup.go", "RoutineGroup.Run", "rgRunEff", rg)
+	e.c05Effects(s, "core/threading/routinegroup.go", "RoutineGroup.RunSafe", "rgRunSafeEff", rg)
+	e.c05Effects(s, "core/syncx/barrier.go", "Guard", "guardEff", c05EffCfg{locks: []string{"lock"}, user: []string{"fn"}})
+	// rescue.Recover: the clean-ups (release + Done) run BEFORE recover() and the report
+	e.c05Stmts(s, "core/rescue/recover.go", "Recover", "rescueRecoverStmts")
+}
+
 func init() {
 	register("C05", func(s *source, e *emitter) {
 		none := map[string]bool{}
+		c05Round5(s, e)
 		c05Round4(s, e)
 		e.shapeDef(s, "core/syncx/limit.go", "Limit.Borrow", "borrowShape")
 		e.shapeDef(s, "core/syncx/limit.go", "Limit.Return", "returnShape")
